@@ -1,15 +1,49 @@
-(* C11_qdcm.v — Quaternion(dcm=M) with the default method (shepperd), the whole regenerated decision tree
-   (26 paths): whatever it returns is a unit quaternion and nothing but ValueError is raised.
-   Compiled in the thorough tier only (about 70 s); the quick tier proves the same statement for the
-   branch-free method='chiaverini' variant, which passes through the same from_DCM check. *)
+(* C11_qdcm.v — Quaternion(dcm=M), default method: the whole regenerated decision tree (from_DCM's SO(3) check,
+   the four shepperd branches, two normalisations, the constructor's zero test; 26 paths).
+   Whatever it returns is a unit quaternion, nothing but ValueError is raised, and a matrix that fails the
+   check (the same predicate so3_close as the DCM gate) is rejected. *)
 From Coq Require Import Reals List Lra Psatz.
 From AhrsLib Require Import Base Rot.
 From AhrsGen Require Import C11gen_R.
-From AhrsProps Require Import C11_norm.
+From AhrsProps Require Import C11_norm C11_gate.
 Import ListNotations.
 Open Scope R_scope.
 
-Theorem C11_Q_dcm_shepperd_unit_or_ValueError : forall m00 m01 m02 m10 m11 m12 m20 m21 m22 o,
+Lemma Q_dcm_unit_or_VE m00 m01 m02 m10 m11 m12 m20 m21 m22 o :
   C11_Q_dcm_R m00 m01 m02 m10 m11 m12 m20 m21 m22 = o -> unit_or_VE o.
-Proof. intros until o. unfold C11_Q_dcm_R. walk leaf_post. Qed.
-Print Assumptions C11_Q_dcm_shepperd_unit_or_ValueError.
+Proof. cbv beta delta [C11_Q_dcm_R]. walk leaf_post. Qed.
+
+(* walk only the chain of gates  if c then .. else Raise _  at the top of the tree *)
+Ltac walk_gates leaf :=
+  lazymatch goal with
+  | |- (if ?c then ?a else ?b) = ?r -> ?G =>
+      lazymatch b with
+      | Raise _ => refine (if_elim c a b (fun o => o = r -> G) _ _); intro; [walk_gates leaf | leaf]
+      | _ => leaf
+      end
+  | |- _ => leaf
+  end.
+
+Lemma Q_dcm_rejects m00 m01 m02 m10 m11 m12 m20 m21 m22 :
+  ~ so3_close [m00;m01;m02;m10;m11;m12;m20;m21;m22] ->
+  C11_Q_dcm_R m00 m01 m02 m10 m11 m12 m20 m21 m22 = Raise ValueError.
+Proof.
+  intros Hn.
+  assert (G : forall o, C11_Q_dcm_R m00 m01 m02 m10 m11 m12 m20 m21 m22 = o -> o = Raise ValueError).
+  { intros o. cbv beta delta [C11_Q_dcm_R].
+    walk_gates ltac:(let E := fresh "E" in intros E;
+      first [ symmetry; exact E
+            | exfalso; apply Hn; unfold so3_close, tol_d, tol_o; cbv [mmul3 mtr3 det3 e nth];
+              repeat split; use_close ]). }
+  apply G. reflexivity.
+Qed.
+
+(* so the matrices that Quaternion(dcm=) converts are exactly within the gate's tolerance of SO(3) *)
+Lemma Q_dcm_val_close m00 m01 m02 m10 m11 m12 m20 m21 m22 l :
+  C11_Q_dcm_R m00 m01 m02 m10 m11 m12 m20 m21 m22 = Val l ->
+  so3_close [m00;m01;m02;m10;m11;m12;m20;m21;m22] /\ unit4l l.
+Proof.
+  intros E. split; [|exact (Q_dcm_unit_or_VE _ _ _ _ _ _ _ _ _ _ E)].
+  destruct (gate_cases m00 m01 m02 m10 m11 m12 m20 m21 m22) as [[C _]|[Hn _]]; [exact C|].
+  rewrite (Q_dcm_rejects _ _ _ _ _ _ _ _ _ Hn) in E. discriminate E.
+Qed.
